@@ -50,6 +50,11 @@ def run(ctx):
     # Tversion as aborted)
     keep = [v for v in verdicts if v[2] in ("server-crash", "stalled", "second-reply", "wrong-reply-type", "foreign-payload", "unanswered",
                                             "flush-unanswered", "late-reply-under-reused-tag")]
+    # once a reply has arrived late (after the Rversion that aborted its request) the monitor's attribution of every later
+    # reply of that case is off by one: those cases are reported under the one finding they are an instance of
+    late_cases = {v[0] for v in verdicts if v[2] in ("reply-after-rflush", "late-reply-under-reused-tag")}
+    keep = [(case, prop, ("late-reply-under-reused-tag" if case in late_cases and kind in ("foreign-payload", "wrong-reply-type", "second-reply") else kind), detail)
+            for (case, prop, kind, detail) in keep]
     for (case, prop, kind, detail) in keep:
         ctx.violation("x02:%s:%s" % (kind, srvfam.classify_detail(kind, detail)), "%s %s (case %d)" % (kind, detail, case),
                       {"behaviour": srvfam.case_replay(bpath if case < 50000 else (sbp if case < 100000 else bp), case)})
